@@ -29,6 +29,7 @@ func (g *Gen) doCall(st *State, c *ssa.Call) *Val {
 	for _, a := range cc.Args {
 		args = append(args, g.val(st, a))
 	}
+	g.checkCallAsserts(st, c, args)
 	if cc.IsInvoke() {
 		recv := g.val(st, cc.Value)
 		g.nilCheck(st, recv, pos, text)
@@ -53,6 +54,16 @@ func (g *Gen) doCall(st *State, c *ssa.Call) *Val {
 		g.havocked = append(g.havocked, fmt.Sprintf("call %s (no contract)", key))
 		g.frameCheckOpaqueCall(st, c, ms, key)
 		return g.havocCall(st, c, ms, args)
+	}
+	// a function-typed parameter declared `purefunc`: the call has no effect, only an arbitrary result
+	if g.spec != nil {
+		if prm := funcParamOf(cc.Value); prm != nil {
+			for _, pp := range g.spec.PureParams {
+				if pp == prm.Name() {
+					return g.havocResult(st, c.Type(), "ret_pure_"+pp)
+				}
+			}
+		}
 	}
 	// closure / function value
 	g.havocked = append(g.havocked, "dynamic call "+text)
@@ -431,6 +442,27 @@ func (g *Gen) callWithSpec(st *State, c *ssa.Call, sp *FuncSpec, fn *ssa.Functio
 	pre := st.clone()
 	env.cur, env.old = pre, pre
 	calleeName := sp.Key
+	// arguments for `purefunc` parameters must be functions with an empty modifies clause
+	if fn != nil {
+		for _, pp := range sp.PureParams {
+			for i, prm := range fn.Params {
+				if prm.Name() != pp || i >= len(c.Common().Args) {
+					continue
+				}
+				ok := false
+				if af := staticFuncOf(c.Common().Args[i]); af != nil {
+					if asp := g.P.specs[specKeyOf(af)]; asp != nil && asp.HasMod && !asp.ModAll && len(asp.Modifies) == 0 {
+						ok = true
+					}
+				}
+				goal := "false"
+				if ok {
+					goal = "true"
+				}
+				g.oblige("pre@call", calleeName+":purefunc "+pp, c.Pos(), st.reach, goal)
+			}
+		}
+	}
 	for _, cl := range sp.Requires {
 		for _, part := range splitGoal(g.P.expand(cl.E)) {
 			t := g.evalBool(env, part)
@@ -741,4 +773,93 @@ func prefixNames(m map[string]string, h string) map[string]bool {
 		}
 	}
 	return out
+}
+
+
+// checkCallAsserts: `callassert Callee#n: e` clauses of the function under verification.
+func (g *Gen) checkCallAsserts(st *State, c *ssa.Call, args []*Val) {
+	if g.spec == nil || len(g.spec.CallAsserts) == 0 {
+		return
+	}
+	cc := c.Common()
+	var name string
+	if cc.IsInvoke() {
+		name = typeName(cc.Value.Type()) + "." + cc.Method.Name()
+	} else if fn, ok := cc.Value.(*ssa.Function); ok {
+		name = fnDisplayName(fn)
+	} else {
+		return
+	}
+	g.callCount[name]++
+	for i := range g.spec.CallAsserts {
+		ca := &g.spec.CallAsserts[i]
+		if ca.Callee != name || ca.N != g.callCount[name] {
+			continue
+		}
+		ca.bound = true
+		env := g.specEnv(st, g.entry)
+		env.locals = true
+		env.atPos = c.Pos()
+		for k, a := range args {
+			env.vars[fmt.Sprintf("arg%d", k)] = a
+		}
+		for _, part := range splitGoal(g.P.expand(ca.E)) {
+			lb := ca.Name
+			if lb == "" {
+				lb = part.String()
+			}
+			g.oblige("assert", fmt.Sprintf("%s#%d:%s", name, ca.N, lb), c.Pos(), st.reach, g.evalBool(env, part))
+		}
+	}
+}
+
+
+func funcParamOf(v ssa.Value) *ssa.Parameter {
+	for i := 0; i < 4; i++ {
+		switch x := v.(type) {
+		case *ssa.Parameter:
+			return x
+		case *ssa.UnOp:
+			a, ok := x.X.(*ssa.Alloc)
+			if !ok {
+				return nil
+			}
+			var st *ssa.Store
+			n := 0
+			for _, r := range *a.Referrers() {
+				if s, ok := r.(*ssa.Store); ok && s.Addr == a {
+					st = s
+					n++
+				}
+			}
+			if n != 1 {
+				return nil
+			}
+			v = st.Val
+		default:
+			return nil
+		}
+	}
+	return nil
+}
+
+func staticFuncOf(v ssa.Value) *ssa.Function {
+	for i := 0; i < 4; i++ {
+		switch x := v.(type) {
+		case *ssa.Function:
+			return x
+		case *ssa.ChangeType:
+			v = x.X
+		case *ssa.MakeClosure:
+			if len(x.Bindings) == 0 {
+				if f, ok := x.Fn.(*ssa.Function); ok {
+					return f
+				}
+			}
+			return nil
+		default:
+			return nil
+		}
+	}
+	return nil
 }
